@@ -85,6 +85,15 @@ def _limits(cpu_s, mem_bytes):
         if mem_bytes:
             resource.setrlimit(resource.RLIMIT_AS, (mem_bytes, mem_bytes))
         resource.setrlimit(resource.RLIMIT_CORE, (0, 0))
+        # the stack bound the recursive descent is allowed (C01): 8 MiB for the main thread, whatever the caller's ulimit
+        try:
+            soft, hard = resource.getrlimit(resource.RLIMIT_STACK)
+            want = 8 << 20
+            if hard != resource.RLIM_INFINITY and hard < want:
+                want = hard
+            resource.setrlimit(resource.RLIMIT_STACK, (want, hard))
+        except (ValueError, OSError):
+            pass
 
     return f
 
